@@ -463,6 +463,16 @@ struct Ctx<'a> {
     case: &'a Case,
     root: PathBuf,
     images: u64,
+    /// the `crash k χ` request being answered (appended to the replay input of a failure)
+    pending_line: String,
+}
+
+/// oracle failure for the crash request being answered: the replay input is the case so far plus
+/// that request
+fn fail(cx: &Ctx, rec: &mut Recorder, what: String) {
+    let mut input = rec.current_case_lines();
+    input.push(cx.pending_line.clone());
+    rec.oracle_fail_with(what, input);
 }
 
 /// records (offset, length-prefixed bytes) appended by the calls before index `upto`
@@ -486,6 +496,7 @@ fn records(calls: &[HiCall], upto: usize) -> Vec<(u64, Vec<u8>)> {
 /// the real code, return the real verdict line and evaluate the S-level oracle.
 fn check_image(cx: &mut Ctx, rec: &mut Recorder, sim: &Sim, ci: usize, k: usize, chi: &[String], grow: bool, label: &str) -> String {
     cx.images += 1;
+    cx.pending_line = format!("crash {k} {}", if chi.is_empty() { "-".to_string() } else { chi.join(",") });
     let calls = &cx.case.calls;
     let (img, size) = sim.crash(chi, grow);
     let dir = fresh_dir(&cx.root, "img");
@@ -535,22 +546,29 @@ fn check_image(cx: &mut Ctx, rec: &mut Recorder, sim: &Sim, ci: usize, k: usize,
         None => {
             rec.count("verdict:err");
             if root_of(done).is_some() {
-                rec.oracle_fail(what(format!(
+                fail(cx, rec, what(format!(
                     "open fails although {} commit(s) had completed",
                     done + usize::from(cx.case.base.root.is_some())
                 )));
             }
         }
         Some(t) => {
-            let j = if root_of(done) == Some(*t) {
+            // the control record proper (generation, heads, fact cache, free offset, checksum);
+            // which slot is written next is mechanism, compared by the model tie only
+            let rec5 = |r: RootT| (r.0, r.1, r.2, r.3, r.4);
+            let same = |j: usize| root_of(j).map(rec5) == Some(rec5(*t));
+            let j = if same(done) {
                 rec.count("verdict:last_completed");
+                if root_of(done).map(|r| r.5) != Some(t.5) {
+                    rec.count("note:next_root_differs_from_live_writer");
+                }
                 done
-            } else if inprog.and_then(root_of) == Some(*t) {
+            } else if inprog.map_or(false, same) {
                 rec.count("verdict:in_progress");
                 done + 1
             } else {
-                let m = (0..=commit_roots.len()).find(|j| root_of(*j) == Some(*t));
-                rec.oracle_fail(what(format!(
+                let m = (0..=commit_roots.len()).find(|j| same(*j));
+                fail(cx, rec, what(format!(
                     "recovered root {} is neither the last completed commit ({done}) nor the commit in progress ({inprog:?}); it matches commit {m:?}",
                     show_root(t)
                 )));
@@ -561,7 +579,7 @@ fn check_image(cx: &mut Ctx, rec: &mut Recorder, sim: &Sim, ci: usize, k: usize,
             for (off, bytes) in cx.case.base.records.iter().cloned().chain(records(calls, calls.len())) {
                 let end = off as usize + bytes.len();
                 if end as i64 <= t.3 && file.get(off as usize..end) != Some(&bytes[..]) {
-                    rec.oracle_fail(what(format!("record at offset {off} (below the recovered free offset {}) is not intact in the image", t.3)));
+                    fail(cx, rec, what(format!("record at offset {off} (below the recovered free offset {}) is not intact in the image", t.3)));
                     return verdict;
                 }
             }
@@ -571,7 +589,7 @@ fn check_image(cx: &mut Ctx, rec: &mut Recorder, sim: &Sim, ci: usize, k: usize,
             let got = vh::catch(std::panic::AssertUnwindSafe(|| snapshot(&mut r)));
             match got {
                 Err(p) => rec.panics.push(what(format!("panic while reading the recovered state: {p}"))),
-                Ok(Err(e)) => rec.oracle_fail(what(format!("recovered commit {j}: reachable data unreadable: {e}"))),
+                Ok(Err(e)) => fail(cx, rec, what(format!("recovered commit {j}: reachable data unreadable: {e}"))),
                 Ok(Ok(s)) => {
                     rec.count("readback:ok");
                     rec.count_n("readback:cmds", s.cmds.len() as u64);
@@ -579,7 +597,7 @@ fn check_image(cx: &mut Ctx, rec: &mut Recorder, sim: &Sim, ci: usize, k: usize,
                     if let Some(want) = want {
                         rec.count("readback:compared");
                         if &s != want {
-                            rec.oracle_fail(what(format!(
+                            fail(cx, rec, what(format!(
                                 "recovered commit {j} differs from what was committed: heads {} vs {}, {} vs {} commands, facts {} vs {}",
                                 show_ids(&s.heads), show_ids(&want.heads), s.cmds.len(), want.cmds.len(), s.facts, want.facts
                             )));
@@ -677,7 +695,7 @@ fn gen_chis(rng: &mut Rng, sim: &Sim, budget: usize) -> Vec<Vec<String>> {
 }
 
 fn explore(rec: &mut Recorder, rng: &mut Rng, case: &Case, root: &Path, per_point: usize, point_stride: usize, label: &str) -> u64 {
-    let mut cx = Ctx { case, root: root.to_path_buf(), images: 0 };
+    let mut cx = Ctx { case, root: root.to_path_buf(), images: 0, pending_line: String::new() };
     let mut sim = case.base.sim.clone();
     for (rq, rl) in &case.base.prefix_lines {
         rec.line(rq.clone(), rl.clone());
@@ -843,7 +861,7 @@ fn replay(rec: &mut Recorder, root: &Path, lines: &[String]) {
                     line = format!("{} {k} {}", t[0], if chi.is_empty() { "-".into() } else { chi.join(",") });
                 }
                 if t[0] == "crash" {
-                    let mut cx = Ctx { case: &case, root: root.to_path_buf(), images: 0 };
+                    let mut cx = Ctx { case: &case, root: root.to_path_buf(), images: 0, pending_line: String::new() };
                     let real = check_image(&mut cx, rec, &s, ci, k, &chi, true, "replay");
                     rec.line(line, real);
                 } else {
